@@ -5,7 +5,7 @@ set_option linter.unusedSimpArgs false
 -/
 namespace Soxr.Chan
 
-variable {σ α β κ : Type} {E : Engine σ α}
+variable {σ α β κ : Type} {E : Engine σ α} {mc : Nat → List α → List β × Nat × Nat}
 
 theorem delayOf_rel (Sh : Shape E κ) {c ch : Nat} {S s : St σ} (h : Rel Sh c ch S s) : delayOf E s = delayOf E S := by
   unfold delayOf
@@ -34,15 +34,15 @@ theorem rel_init (Sh : Shape E κ) (ch c seed : Nat) (hc : c < ch) : Rel Sh c ch
 
 /-- one API call: the 1-channel resampler fed channel `c` alone stays in step and sees channel `c`'s share of everything
     the caller of the multi-channel resampler sees -/
-theorem step_sim (Sh : Shape E κ) (cfg : Cfg α β) (P : PureConv cfg.cout) {c : Nat} {S s : St σ}
+theorem step_sim (Sh : Shape E κ) (cfg : Cfg α β) {c : Nat} (V : ChanConv cfg.cout cfg.ch c mc) {S s : St σ}
     (h : Rel Sh c cfg.ch S s) (op : Op β) :
-    Rel Sh c cfg.ch (step E cfg S op).1 (step E (monoCfg cfg) s (projOp cfg c op)).1 ∧
-    (step E (monoCfg cfg) s (projOp cfg c op)).2 = projObs c (step E cfg S op).2 := by
-  have hb : (blank (monoCfg cfg).ch : List (List β)) = [(blank cfg.ch : List (List β)).getD c []] := by
+    Rel Sh c cfg.ch (step E cfg S op).1 (step E (monoCfgC cfg mc) s (projOp cfg c op)).1 ∧
+    (step E (monoCfgC cfg mc) s (projOp cfg c op)).2 = projObs c (step E cfg S op).2 := by
+  have hb : (blank (monoCfgC cfg mc).ch : List (List β)) = [(blank cfg.ch : List (List β)).getD c []] := by
     rw [blank_getD]; rfl
   cases op with
   | process inb ilen0 fr wi op olen rs =>
-    obtain ⟨h1, h2, h3, h4, -⟩ := process_sim Sh cfg P h inb ilen0 fr wi op olen rs
+    obtain ⟨h1, h2, h3, h4, -⟩ := process_sim Sh cfg V h inb ilen0 fr wi op olen rs
     refine ⟨h1, ?_⟩
     show mkObs E _ _ _ _ _ = projObs c (mkObs E _ _ _ _ _)
     have := mkObs_rel Sh h1 (process E cfg S inb ilen0 fr wi op olen rs).idone
@@ -52,7 +52,7 @@ theorem step_sim (Sh : Shape E κ) (cfg : Cfg α β) (P : PureConv cfg.cout) {c 
     simp only [projReplies] at h2 h3 h1 ⊢
     rw [h2, h3, h1.error]
   | output op olen rs =>
-    obtain ⟨h1, h2, h3, -⟩ := output_sim Sh cfg P h op olen rs
+    obtain ⟨h1, h2, h3, -⟩ := output_sim Sh cfg V h op olen rs
     refine ⟨h1, ?_⟩
     show mkObs E _ _ _ _ _ = projObs c (mkObs E _ _ _ _ _)
     have := mkObs_rel Sh h1 0 (output E cfg S op olen rs).2.1 0 _ _ h3
@@ -68,17 +68,17 @@ theorem step_sim (Sh : Shape E κ) (cfg : Cfg α β) (P : PureConv cfg.cout) {c 
     have e1 : s.error.isSome = S.error.isSome := by rw [h.error]
     by_cases hE : S.error.isSome = true
     · have t1 : step E cfg S (.setRatio r slew) = (S, mkObs E S 0 0 1 (blank cfg.ch)) := by simp [step, hE]
-      have t2 : step E (monoCfg cfg) s (.setRatio r slew) = (s, mkObs E s 0 0 1 (blank (monoCfg cfg).ch)) := by
+      have t2 : step E (monoCfgC cfg mc) s (.setRatio r slew) = (s, mkObs E s 0 0 1 (blank (monoCfgC cfg mc).ch)) := by
         simp [step, e1, hE]
       rw [projOp, t1, t2]
       exact ⟨h, mkObs_rel Sh h 0 0 1 _ _ hb⟩
     · by_cases hr : cfg.hasSetRatio = true
-      · have hr' : (monoCfg cfg).hasSetRatio = true := hr
+      · have hr' : (monoCfgC cfg mc).hasSetRatio = true := hr
         have t1 : step E cfg S (.setRatio r slew) = ({ S with eng := S.eng.map (fun e => E.setRatio e r slew) },
             mkObs E { S with eng := S.eng.map (fun e => E.setRatio e r slew) } 0 0 0 (blank cfg.ch)) := by
           simp [step, hE, hr]
-        have t2 : step E (monoCfg cfg) s (.setRatio r slew) = ({ s with eng := s.eng.map (fun e => E.setRatio e r slew) },
-            mkObs E { s with eng := s.eng.map (fun e => E.setRatio e r slew) } 0 0 0 (blank (monoCfg cfg).ch)) := by
+        have t2 : step E (monoCfgC cfg mc) s (.setRatio r slew) = ({ s with eng := s.eng.map (fun e => E.setRatio e r slew) },
+            mkObs E { s with eng := s.eng.map (fun e => E.setRatio e r slew) } 0 0 0 (blank (monoCfgC cfg mc).ch)) := by
           simp [step, e1, hE, hr']
         rw [projOp, t1, t2]
         have h1 : Rel Sh c cfg.ch { S with eng := S.eng.map (fun e => E.setRatio e r slew) }
@@ -88,29 +88,29 @@ theorem step_sim (Sh : Shape E κ) (cfg : Cfg α β) (P : PureConv cfg.cout) {c 
           · show s.eng.map _ = (S.eng.map _)[c]?.toList
             rw [h.eng, toList_getElem?_map]
         exact ⟨h1, mkObs_rel Sh h1 0 0 0 _ _ hb⟩
-      · have hr' : ¬ (monoCfg cfg).hasSetRatio = true := hr
+      · have hr' : ¬ (monoCfgC cfg mc).hasSetRatio = true := hr
         have t1 : step E cfg S (.setRatio r slew) = (S, mkObs E S 0 0 (if cfg.sameRatio r then 0 else 1) (blank cfg.ch)) := by
           simp [step, hE, hr]
-        have t2 : step E (monoCfg cfg) s (.setRatio r slew)
-            = (s, mkObs E s 0 0 (if (monoCfg cfg).sameRatio r then 0 else 1) (blank (monoCfg cfg).ch)) := by
+        have t2 : step E (monoCfgC cfg mc) s (.setRatio r slew)
+            = (s, mkObs E s 0 0 (if (monoCfgC cfg mc).sameRatio r then 0 else 1) (blank (monoCfgC cfg mc).ch)) := by
           simp [step, e1, hE, hr']
         rw [projOp, t1, t2]
         exact ⟨h, mkObs_rel Sh h 0 0 _ _ _ hb⟩
   | clear =>
-    have h1 : Rel Sh c cfg.ch { (initSt E cfg.ch 0) with fn := S.fn } { (initSt E (monoCfg cfg).ch 0) with fn := s.fn } := by
+    have h1 : Rel Sh c cfg.ch { (initSt E cfg.ch 0) with fn := S.fn } { (initSt E (monoCfgC cfg mc).ch 0) with fn := s.fn } := by
       have := rel_init Sh cfg.ch c 0 h.hc
       exact ⟨this.hc, this.len, this.clen, this.uni, this.eng, this.clips, this.flushing, this.error, h.fn, this.seed⟩
     exact ⟨h1, mkObs_rel Sh h1 0 0 0 _ _ hb⟩
 
-theorem run_sim (Sh : Shape E κ) (cfg : Cfg α β) (P : PureConv cfg.cout) {c : Nat} (ops : List (Op β)) :
+theorem run_sim (Sh : Shape E κ) (cfg : Cfg α β) {c : Nat} (V : ChanConv cfg.cout cfg.ch c mc) (ops : List (Op β)) :
     ∀ {S s : St σ}, Rel Sh c cfg.ch S s →
-      Rel Sh c cfg.ch (run E cfg S ops).1 (run E (monoCfg cfg) s (ops.map (projOp cfg c))).1 ∧
-      (run E (monoCfg cfg) s (ops.map (projOp cfg c))).2 = (run E cfg S ops).2.map (projObs c) := by
+      Rel Sh c cfg.ch (run E cfg S ops).1 (run E (monoCfgC cfg mc) s (ops.map (projOp cfg c))).1 ∧
+      (run E (monoCfgC cfg mc) s (ops.map (projOp cfg c))).2 = (run E cfg S ops).2.map (projObs c) := by
   induction ops with
   | nil => intro S s h; exact ⟨h, rfl⟩
   | cons op ops ih =>
     intro S s h
-    obtain ⟨h1, h2⟩ := step_sim Sh cfg P h op
+    obtain ⟨h1, h2⟩ := step_sim Sh cfg V h op
     obtain ⟨h3, h4⟩ := ih h1
     simp only [run, List.map_cons]
     exact ⟨h3, by rw [h2, h4]⟩
